@@ -18,7 +18,8 @@ META = dict(
               "optional earlier loan), 2 priced pairs with closes from {100, 31234.56} x {2.5, 1800}, margin requirement "
               "from {0, 0.25, 0.5, 1, 2}, interest 7 %/day in USD with minimum {0, 0.01}; the loan under test: "
               "create_loan(symbol in {USD, BTC, ETH}, symbolic amount) and limit/market orders with auto-borrow; an "
-              "open limit order holding funds at the time of the request; a loan in a "
+              "open limit order holding funds at the time of the request; two BTC loans of which one is repaid before "
+              "the request, with no margin required for USD; a loan in a "
               "symbol whose pair has had no bar yet (valued by the oracle at either candidate price); NoLoans: "
               "every borrow request",
         thorough="adds a second earlier loan, interest symbol != borrowed symbol, symbolic margin requirement with 2 "
@@ -29,7 +30,8 @@ META = dict(
     outside=["more than 2 priced pairs / 2 earlier loans", "margin calls (not implemented by basana)"],
     required_covers=["a loan was granted", "a borrow request was refused", "a zero-equity account asked for a loan",
                      "an auto-borrow order was accepted", "something was borrowed and sold before the request",
-                     "an open order held funds when the loan was requested"],
+                     "an open order held funds when the loan was requested",
+                     "an earlier loan was repaid before the request"],
 )
 
 CLOSES = {"BTC": ["100", "31234.56"], "ETH": ["2.5", "1800"]}
@@ -49,7 +51,7 @@ def equity_and_used(w, bal):
 
 
 def borrow(ctx, path="create_loan", lend="margin", earlier=1, margin_req="0.5", min_interest="0", kind="limit",
-           side="buy", lend_quote="USD", req_overrides=None, npairs=2, rebar=False, unpriced=False, open_order=False):
+           side="buy", lend_quote="USD", req_overrides=None, npairs=2, rebar=False, unpriced=False, open_order=False, earlier_symbol=None, repay_first=False):
     if margin_req == "symbolic":
         margin_req = ctx.dec("margin_requirement", 2, lo=0, hi=300)
     init = {"BTC": Decimal(0)} if earlier == "short" else None
@@ -85,14 +87,21 @@ def borrow(ctx, path="create_loan", lend="margin", earlier=1, margin_req="0.5", 
         if oid0 is not None and bool(w.info(oid0).amount_filled > 0):
             ctx.cover("something was borrowed and sold before the request")
         earlier = 0
+    earlier_ids = []
     for n in range(earlier):
-        w.create_loan("earlier%d" % n)
+        earlier_ids.append(w.create_loan("earlier%d" % n, symbol=earlier_symbol))
+
     if rebar:
         # prices move between the earlier loan and the request: the valuation must use the LAST closes
         for i, pair in enumerate(w.pairs):
             w.closes = CLOSES[pair.base_symbol]
             w.feed_bar("rb%d" % i, pair_idx=i)
         w.closes = None
+    if repay_first and earlier_ids and earlier_ids[0] is not None:
+        # repaying one loan (principal + a day's interest at the new price) can leave the account without any equity
+        # while another loan is still open
+        if w.repay(earlier_ids[0]):
+            ctx.cover("an earlier loan was repaid before the request")
     if open_order:
         # an accepted, still open order holds funds when the loan is requested (funds on hold count once in equity)
         roid = w.place("resting", kind="limit", side=None, pair_idx=0)
@@ -163,6 +172,11 @@ def jobs(tier):
     js.append(Job("auto-borrow limit buy while an open order holds funds", "borrow",
                   dict(path="order", margin_req="0.5", earlier=0, kind="limit", side="buy", open_order=True),
                   validate_every=20, sample_every=50, max_paths=200000, split=32))
+    js.append(Job("create_loan after repaying one of two BTC loans, no margin required for USD", "borrow",
+                  dict(path="create_loan", margin_req="0.5", min_interest="0", earlier=2, earlier_symbol="BTC",
+                       rebar=True, repay_first=True, req_overrides={"USD": "0"}, npairs=1), validate_every=20,
+                  sample_every=50,
+                  max_paths=300000, split=64))
     for req in ("0.5", "0"):
         js.append(Job("create_loan in a symbol that has no price yet req=%s" % req, "borrow",
                       dict(path="create_loan", margin_req=req, earlier=0, unpriced=True), validate_every=20,
